@@ -70,7 +70,7 @@ func oldPageWritten(f *flushInfo, k int) bool {
 
 func checkC04(c *core.Ctx) []core.Floor {
 	c.Level = "fault_enumeration"
-	c.Rule = "seeded DDL/DML histories with explicit (timer-equivalent) flushes, CREATE TABLE's flush, close's flush and recovery's own flush; a crash image is taken immediately before EVERY page write and before the header write of EVERY flush (page order = the engine's map iteration order, each history is executed several times to observe different orders). Each image is recovered in a fresh process; every acknowledged table must be exact (a table whose CREATE was in flight is not judged). Second level: crash images are recovered with the hooks armed, giving images inside recovery's own flush. Images of one class are recorded but not judged (known finding, DESIGN.md): a flush that carries a page allocated since the last completed header write, cut after at least one write of a page that existed before (a cut after writes of new pages only leaves the old tree untouched and is judged). Distinct = image; non-trivial = at least one page of the flush had been written and at least one write was still missing."
+	c.Rule = "seeded DDL/DML histories with explicit (timer-equivalent) flushes, CREATE TABLE's flush, close's flush, the flush of a CREATE DATABASE issued in mid-history (one run in three) and recovery's own flush; a crash image is taken immediately before EVERY page write and before the header write of EVERY flush (page order = the engine's map iteration order, each history is executed several times to observe different orders). Each image is recovered in a fresh process; every acknowledged table must be exact (a table whose CREATE was in flight is not judged). Second level: crash images are recovered with the hooks armed, giving images inside recovery's own flush. Images of one class are recorded but not judged (known finding, DESIGN.md): a flush that carries a page allocated since the last completed header write, cut after at least one write of a page that existed before (a cut after writes of new pages only leaves the old tree untouched and is judged). Distinct = image; non-trivial = at least one page of the flush had been written and at least one write was still missing."
 	c.Assume = []string{"process-death crash model (completed writes survive; no torn page writes)", "page orders are those the engine produced in the executed runs; orders never produced are not explored"}
 	drv := mustDriver(c, false)
 	n, reps := 150, 3
@@ -138,10 +138,21 @@ func runFlushCrashHist(c *core.Ctx, drv string, ch *crashHist, rep int) {
 	add(proto.Op{K: "sql", SQL: "USE d1"}, meta{kind: "other"})
 	add(proto.Op{K: "arm", S: "page", Dir: filepath.Join(dir, "arm"), DB: "d1"}, meta{kind: "other"})
 	lastStmtAt := map[int]int{} // op id -> index of the last acknowledged statement before it completes
+	mkdbAfter := -1
+	if (ch.idx+rep)%3 == 0 && len(ch.stmts) > 2 {
+		mkdbAfter = (ch.idx*7 + rep) % (len(ch.stmts) - 1)
+	}
 	for i, st := range ch.stmts {
 		id := add(proto.Op{K: "stmt", Stmt: st}, meta{kind: "stmt", i: i})
 		lastStmtAt[id] = i - 1
 		add(proto.Op{K: "dump"}, meta{kind: "dump", i: i})
+		if mkdbAfter == i {
+			// another database is created in the middle of the history: its
+			// own flush is a flush like any other - a crash inside it must
+			// not keep the system from starting, nor touch the first database
+			id := add(proto.Op{K: "sql", SQL: proto.Text(fmt.Sprintf("CREATE DATABASE extra%d", ch.idx%7))}, meta{kind: "mkdb", i: i})
+			lastStmtAt[id] = i
+		}
 		if ch.flush[i] {
 			id := add(proto.Op{K: "flush"}, meta{kind: "flush", i: i})
 			lastStmtAt[id] = i
@@ -189,9 +200,18 @@ func runFlushCrashHist(c *core.Ctx, drv string, ch *crashHist, rep int) {
 			return "create"
 		case "close":
 			return "close"
+		case "mkdb":
+			return "createdb"
 		}
 		return "timer"
 	})
+	for _, f := range flushes {
+		if f.trigger == "createdb" {
+			// the pages of this flush belong to the new database's file: the
+			// first database's allocation frontier says nothing about them
+			f.allocating = false
+		}
+	}
 	var stmtTexts []string
 	for _, st := range ch.stmts {
 		stmtTexts = append(stmtTexts, clip(model.RenderStmt(st, model.Plain), 300))
@@ -214,7 +234,7 @@ func runFlushCrashHist(c *core.Ctx, drv string, ch *crashHist, rep int) {
 				cands:    []*model.DB{snaps[last]},
 				label:    f.trigger + "_" + pos,
 				noSecond: false,
-				replay: map[string]interface{}{"history": ch.idx, "template": ch.name, "flush_class": ch.class, "run": rep, "statements": stmtTexts[:last+1+btoi(f.trigger == "create")],
+				replay: map[string]interface{}{"history": ch.idx, "template": ch.name, "flush_class": ch.class, "run": rep, "statements": stmtTexts[:last+1+btoi(f.trigger == "create")], "create_database_issued_after_statement": mkdbAfter,
 					"flush_trigger": f.trigger, "flush_index": f.idx, "writes_of_this_flush": f.events, "crash_before_write": k, "header_next_free_on_disk": f.diskFree,
 					"how": "run the statements with the timer off, flushing where the history says; kill -9 immediately before write number crash_before_write of the named flush (page order as listed); then InitStorage"},
 			}
